@@ -102,6 +102,19 @@ class Ctx:
             self.violation(rule, instance, where, detail_bad, witness, construct, examined)
         return ok
 
+    def adopt(self, fn, rules, as_rule: str, why: str) -> None:
+        """Evaluate another property's rule function and adopt some of its
+        obligations under *as_rule* (shared obligations, DESIGN 4: e.g. C04's
+        'keys are unique within a batch' is discharged by C11-R1/R2/R4)."""
+        sub = Ctx(self.prop, self.program, self.thorough)
+        fn(sub)
+        for ob in sub.obs:
+            if ob.rule in rules:
+                o = Ob(self.prop, as_rule, f'[{ob.rule}] {ob.instance}', ob.verdict, ob.where,
+                       (why + ': ' + ob.detail) if ob.detail else why, ob.witness, ob.examined,
+                       ob.construct if ob.verdict == VIOLATION else '')
+                self.obs.append(o)
+
     # -- subjects ----------------------------------------------------------------
     def func(self, rel: str, qualname: str) -> Scope:
         return self.program.func(rel, qualname)
